@@ -519,13 +519,13 @@ def replace_one_decorated_callable_start(m: Match) -> str:
 
 def unquote(
     flat_ast: str,
-    sub: Callable = regex.compile(r"""=["'](.*)['"]\n""").sub,
+    sub: Callable = regex.compile(r"""(?m)^([^=\n]*)=["'](.*)['"]\n""").sub,
 ) -> str:
     """Suppress the quote delimiters after “=“ to simplify the regular expressions of `spec.md`.
 
     Argument `sub` [not to be explicitly provided.](developer_manual/index.html#default-argument-trick)
     """
-    return sub(r"=\1\n", flat_ast)
+    return sub(r"\1=\2\n", flat_ast)
 
 
 def suppress_kinds(
